@@ -305,3 +305,16 @@ Proof.
   apply nopanic_bind; [apply nopanic_count_chars|intros bytes].
   destruct (forallb _ bytes); [apply nopanic_ret|apply nopanic_pfail].
 Qed.
+
+(* a look-ahead that the following readers re-read: `let (_, x) = p(data)?` *)
+Lemma reads_bind_peek {A B} (m : P A) (f : A -> P B) w v w2 v2 :
+  reads m w v -> (forall a, reads (f a) w2 (v2 a)) -> (w <= w2)%nat ->
+  reads (bind (peek_p m) f) w2 (fun bs p => v2 (v bs p) bs (0 + p)%nat).
+Proof.
+  intros Hm Hf Hw bs p Hp. unfold bind, peek_p. cbn [Nat.add].
+  destruct (Nat.leb_spec (w2 + p) (length bs)) as [H2|H2].
+  - rewrite (reads_ok _ _ _ _ _ Hm) by lia. exact (reads_ok _ _ _ _ _ (Hf _) H2).
+  - destruct (Nat.leb_spec (w + p) (length bs)) as [H1|H1].
+    + rewrite (reads_ok _ _ _ _ _ Hm H1). exact (reads_short _ _ _ _ _ (Hf _) Hp H2).
+    + rewrite (reads_short _ _ _ _ _ Hm Hp H1). reflexivity.
+Qed.
